@@ -47,6 +47,10 @@ pub struct Sched {
     pub tokens: HashMap<String, u64>,
     pub controlled: HashSet<String>,
     pub free_run: bool,
+    /// controlled threads park at fs: points as well (the cleanup thread, FlwCleanQ.tla)
+    pub park_fs: bool,
+    /// number of times a thread has parked so far (to tell a new park from the one it is leaving)
+    pub parks: HashMap<String, u64>,
 }
 
 pub struct H {
@@ -162,7 +166,35 @@ impl H {
         s.tokens.clear();
         s.controlled = controlled.iter().map(|x| x.to_string()).collect();
         s.free_run = false;
+        s.park_fs = false;
+        s.parks.clear();
         self.sched_on.store(true, Ordering::SeqCst);
+    }
+    /// as sched_reset, but the controlled threads are also held in front of every file-system effect
+    pub fn sched_reset_fs(&self, controlled: &[&str]) {
+        self.sched_reset(controlled);
+        self.sched.lock().unwrap().park_fs = true;
+    }
+    pub fn park_count(&self, id: &str) -> u64 {
+        *self.sched.lock().unwrap().parks.get(id).unwrap_or(&0)
+    }
+    /// wait until thread `id` has parked more than `seen` times; returns the point name
+    pub fn wait_new_park(&self, id: &str, seen: u64, timeout: Duration) -> Option<String> {
+        let deadline = Instant::now() + timeout;
+        let mut s = self.sched.lock().unwrap();
+        loop {
+            if *s.parks.get(id).unwrap_or(&0) > seen {
+                if let Some(p) = s.parked.get(id) {
+                    return Some(p.clone());
+                }
+            }
+            let now = Instant::now();
+            if now >= deadline {
+                return None;
+            }
+            let (g, _) = self.cv.wait_timeout(s, deadline - now).unwrap();
+            s = g;
+        }
     }
     pub fn sched_off(&self) {
         let mut s = self.sched.lock().unwrap();
@@ -194,6 +226,34 @@ impl H {
     }
     pub fn is_parked(&self, id: &str) -> bool {
         self.sched.lock().unwrap().parked.contains_key(id)
+    }
+}
+
+impl H {
+    fn park_here(&self, name: &'static str) {
+        if self.sched_on.load(Ordering::SeqCst) {
+            let id = tid();
+            let mut s = self.sched.lock().unwrap();
+            if s.controlled.contains(&id) && !s.free_run && (s.park_fs || !name.starts_with("fs:")) {
+                s.parked.insert(id.clone(), name.to_string());
+                *s.parks.entry(id.clone()).or_insert(0) += 1;
+                self.cv.notify_all();
+                loop {
+                    if s.free_run {
+                        break;
+                    }
+                    if let Some(t) = s.tokens.get_mut(&id) {
+                        if *t > 0 {
+                            *t -= 1;
+                            break;
+                        }
+                    }
+                    s = self.cv.wait(s).unwrap();
+                }
+                s.parked.remove(&id);
+                self.cv.notify_all();
+            }
+        }
     }
 }
 
@@ -232,6 +292,7 @@ impl vh::Handler for H {
                 .push((name.to_string(), f, tid()));
         }
         if is_fs {
+            self.park_here(name);
             let n = self.fs_hits.fetch_add(1, Ordering::SeqCst) + 1;
             let at = self.crash_at.load(Ordering::SeqCst);
             if at >= 0 && n as i64 == at {
@@ -276,28 +337,7 @@ impl vh::Handler for H {
                     _ => {}
                 }
             }
-            if self.sched_on.load(Ordering::SeqCst) {
-                let id = tid();
-                let mut s = self.sched.lock().unwrap();
-                if s.controlled.contains(&id) && !s.free_run {
-                    s.parked.insert(id.clone(), name.to_string());
-                    self.cv.notify_all();
-                    loop {
-                        if s.free_run {
-                            break;
-                        }
-                        if let Some(t) = s.tokens.get_mut(&id) {
-                            if *t > 0 {
-                                *t -= 1;
-                                break;
-                            }
-                        }
-                        s = self.cv.wait(s).unwrap();
-                    }
-                    s.parked.remove(&id);
-                    self.cv.notify_all();
-                }
-            }
+            self.park_here(name);
         }
         Ok(())
     }
